@@ -151,8 +151,16 @@ func udpRecordScenario(param string) vsched.Scenario {
 			if buildErr != nil {
 				return obs, "harness: cannot build/start services: " + buildErr.Error()
 			}
-			if len(e.Panics) > 0 || e.Deadlock || e.HorizonHit || recvErr != "" || !stopped {
-				return obs, "" // crashes, lost replies and shutdown are C11's and C12's subject; nothing to compare here
+			// crashes, lost replies and shutdown are C11's and C12's subject, but without a completed run there are
+			// no figures to compare, and a check that silently compares nothing is worse than one that says so
+			if len(e.Panics) > 0 {
+				return obs, "no statistics to compare: panic: " + e.Panics[0]
+			}
+			if e.Deadlock || e.HorizonHit || !stopped {
+				return obs, "no statistics to compare: the run did not complete: " + env.Canon(strings.Join(e.Blocked, " "))
+			}
+			if recvErr != "" {
+				return obs, "no statistics to compare: a client did not get its reply: " + env.Canon(recvErr)
 			}
 			var wantUpPk, wantUpBy, wantDnPk, wantDnBy uint64
 			for _, g := range target.Got {
@@ -174,6 +182,30 @@ func udpRecordScenario(param string) vsched.Scenario {
 			if sess != nClients {
 				return obs, fmt.Sprintf("statistics: %d UDP sessions recorded, %d client sessions ran", sess, nClients)
 			}
+			if sp.server == "ss2022mu" {
+				// each user's figures are the traffic of the sessions authenticated as that user
+				names := []string{"alice", "bob"}
+				var want []string
+				for i := 0; i < nClients; i++ {
+					var up, upB, dn, dnB uint64
+					for _, g := range target.Got {
+						var si, k int
+						if _, err := fmt.Sscanf(g.Payload, "s%d#%d", &si, &k); err == nil && si == i {
+							up++
+							upB += uint64(len(g.Payload))
+						}
+					}
+					for _, l := range gotDown[i] {
+						dn++
+						dnB += uint64(l)
+					}
+					want = append(want, fmt.Sprintf("%s:up=%d/%d,down=%d/%d", names[i%2], up, upB, dn, dnB))
+				}
+				sort.Strings(want)
+				if w := strings.Join(want, " "); w != userSum {
+					return obs, fmt.Sprintf("statistics: per-user figures {%s}, the users' sessions carried {%s}", userSum, w)
+				}
+			}
 			return obs, ""
 		}
 		return body, check
@@ -182,7 +214,7 @@ func udpRecordScenario(param string) vsched.Scenario {
 
 func udpRecordFamily() []string {
 	var out []string
-	for _, sv := range []string{"none", "socks5", "ss2022", "direct"} {
+	for _, sv := range []string{"none", "socks5", "ss2022", "ss2022mu", "direct"} {
 		for _, b := range []string{"no", "sendmmsg"} {
 			out = append(out, udpRecSpec{sv, b}.String())
 		}
